@@ -16,7 +16,7 @@ sys.path.insert(0, HERE)
 from mythverif import selftest
 from mythverif.core import Context
 
-OUT = '/tmp/mut'
+OUT = os.environ.get('MUT_OUT', '/tmp/mut')      # MUT_OUT / MUT_ONLY=f1,f2 : a second sweep restricted to some functions
 PROPS = ['C%02d' % i for i in range(1, 21)]
 PER_FN = int(os.environ.get('MUT_PER_FN', '6'))
 
@@ -27,6 +27,8 @@ def fn_ranges():
     for f in glob.glob(os.path.join(HERE, 'evidence', 'C*.json')):
         names |= set(json.load(open(f))['coverage'].get('functions', []))
     names = set(n for n in names if not n.startswith(('__wrap_', 'real_', '_Z')))
+    if os.environ.get('MUT_ONLY'):
+        names = set(os.environ['MUT_ONLY'].split(','))
     ctx = Context('MUT')
     locs = {}
     lines_with_code = {}
